@@ -566,8 +566,12 @@ def run_check(pid, tier, body, needs_native=False, regen=None, level_partial=Non
         "property_id": pid, "tier": tier, "seed": seed, "level": "proof", "coverage": cov,
         "assumptions": list(ctx.assumptions), "wall_s": round(wall, 2), "violations": violations,
     }
-    EVIDENCE.mkdir(exist_ok=True)
-    (EVIDENCE / f"{pid}.json").write_text(json.dumps(ev, indent=1, default=repr))
+    # evidence/ describes /repo itself; a run against another tree (HYDROVERIF_REPO: seeded changes, rewrites, fix branches)
+    # must not overwrite it
+    evdir = EVIDENCE if REPO == Path("/repo") else BUILD / "evidence-other-tree"
+    evdir.mkdir(parents=True, exist_ok=True)
+    ev["repo"] = str(REPO)
+    (evdir / f"{pid}.json").write_text(json.dumps(ev, indent=1, default=repr))
     print(f"{pid} tier={tier} seed={seed} theorems={lean.discharged}/{len(lean.theorems)} "
           f"cases={ctx.evaluations} distinct={len(ctx.distinct)} disagreements={len(ctx.disagreements)} "
           f"findings={len(ctx.findings)} (new {len(new_findings)}) wall={wall:.1f}s exit={exit_code}")
